@@ -14,7 +14,7 @@ def load(d):
     return out
 
 q = load(sys.argv[1])
-t = load(sys.argv[2]) if len(sys.argv) > 2 else {}
+t = load(sys.argv[2]) if len(sys.argv) > 2 and not sys.argv[2].startswith('--') else {}
 print("| id | runs | quick: paths / solver queries / wall | thorough: paths / queries / wall |")
 print("|---|---|---|---|")
 tot = 0.0
@@ -31,3 +31,11 @@ for pid in sorted(q):
     print(row)
 print()
 print("quick tier total: %.0f s" % tot)
+
+if '--bounds' in sys.argv:
+    print()
+    for pid in sorted(q):
+        print("* **%s**" % pid)
+        tb = t.get(pid, {}).get('coverage', {}).get('bounds', []) if t.get(pid, {}).get('tier') == 'thorough' else []
+        for k, b in enumerate(q[pid]['coverage'].get('bounds', [])):
+            print("  * quick `%s`" % b)
